@@ -538,9 +538,15 @@ def check_pad_basic(ctx, P, rule_id):
             per_dim = {}
             for p in pads:
                 args, kw = list(p[1]), dict(p[2])
+                # DataArray.pad(pad_width=None, mode="constant", stat_length=None, constant_values=None, ..., **pad_width_kwargs)
                 m = args[0] if args else kw.get("pad_width")
-                md = args[1] if len(args) > 1 else kw.get("mode")
+                md = args[1] if len(args) > 1 else kw.get("mode", "constant")
                 cv = kw.get("constant_values", "<none>")
+                own = {"pad_width", "mode", "stat_length", "constant_values", "end_values", "reflect_type", "keep_attrs"}
+                as_kw = {k: v for k, v in kw.items() if k not in own}
+                if m is None and as_kw:  # widths given as keyword arguments named after the dimensions
+                    known = {dimsym(a, "center").name: dimsym(a, "center") for a in ("AX", "AY")}
+                    m = {known.get(k, k): v for k, v in as_kw.items()}
                 if not isinstance(m, dict):
                     bad = f"xarray.pad called without a {{dimension: widths}} mapping ({m!r})"
                     continue
